@@ -131,14 +131,8 @@ func ruleC01Literal(c *Ctx) {
 		p.Field("ast", "Float64ConstNode", "value"): p.ExtFunc("strconv", "ParseFloat"),
 	}
 	n := 0
-	for _, fn := range c.prodFuncs("ast") {
-		root := fn
-		for root.Parent() != nil {
-			root = root.Parent()
-		}
-		if root.Signature.Recv() == nil || namedOf(root.Signature.Recv().Type()) != lst {
-			continue
-		}
+	_ = lst
+	for _, fn := range listenerFuncs(c) {
 		for _, b := range fn.Blocks {
 			for _, in := range b.Instrs {
 				st, ok := in.(*ssa.Store)
@@ -501,6 +495,12 @@ func binaryOracle(fn *ssa.Function, opFld *types.Var, op int64, n1, n2 bool, ord
 		}
 		return false, false
 	}
+	decideFieldHook = func(origin ssa.Value, f *types.Var) (AV, bool) {
+		if sameVar(f, opFld) && len(fn.Params) > 0 && origin == ssa.Value(fn.Params[0]) {
+			return avInt(op), true
+		}
+		return AV{}, false
+	}
 	decideSymCall = func(callee *types.Func, args []AV) (AV, bool) {
 		if callee.Pkg() == nil || len(args) != 2 || args[0].Kind != "sym" || args[1].Kind != "sym" {
 			return AV{}, false
@@ -562,7 +562,7 @@ func binaryOracle(fn *ssa.Function, opFld *types.Var, op int64, n1, n2 bool, ord
 			if isNil {
 				return AV{Kind: "nil"}, true
 			}
-			return AV{Kind: "nonnil"}, true
+			return AV{Kind: "nonnil", Sym: fmt.Sprintf("ptr:v%d", i)}, true
 		}
 		if f, base := loadedField(v); sameVar(f, opFld) && base == ssa.Value(fn.Params[0]) {
 			return avInt(op), true
